@@ -21,7 +21,7 @@ def jobs(tier):
             if "shared" in e.tags and be == "qaptools":
                 continue
             js.append(dict(name="%s/%s" % (e.name, be), entry=e.name, backend=be, cfg=dict(n=4, r=2, guard=None, bound=None),
-                           tier=tier, catalogue="checks.cat_c13", pid=PID, weight=1))
+                           tier=tier, catalogue="checks.cat_c13", pid=PID, weight=1, job_timeout=60))
     if tier == "quick":
         for be in ("zkifbellman", "zkifbulletproofs"):
             for nm in ("constants", "inverse"):
